@@ -1,6 +1,11 @@
 //! Engine-C harness circuits of C19: `AutomatonChip::parse` and the Base64 chip.
 //!
 //!   ax circuit automaton op=parse k=.. in=b0:b1:.. p.auto=<lib name> | p.r=<R json>   [replay=file]
+//!   ax circuit automaton op=parse k=.. in=.. p.lib=<json array of R> p.call=i[:j..] [p.split=n0:n1..]
+//!        MULTI-AUTOMATON chip: library index j = the real `to_automaton()` of the j-th R; `parse` is called
+//!        once per entry of `call` (in that order, one region each), on consecutive slices of `in`
+//!        (`split` = slice lengths; default: everything to the single call). Instance = all input bytes,
+//!        then the markers of call 0, of call 1, ..
 //!   ax circuit base64 op=decode_base64|decode_base64url k=.. in=.. p.padded=0|1         [replay=file]
 //!   ax circuit base64 op=var_decode_base64|var_decode_base64url k=.. in=<payload bytes, 0/4/8 of them>
 //!
@@ -101,6 +106,34 @@ fn the_regex(spec: &Spec) -> Regex {
     }
 }
 
+/// Multi-automaton shapes: the library (`p.lib`, JSON array of R trees), or None.
+fn the_library(spec: &Spec) -> Option<Vec<J>> {
+    spec.params.get("lib").map(|l| {
+        let v: J = serde_json::from_str(l).expect("lib json");
+        v.as_array().expect("lib must be an array of R").clone()
+    })
+}
+
+fn usize_list(spec: &Spec, key: &str) -> Option<Vec<usize>> {
+    spec.params.get(key).map(|v| v.split(':').filter(|x| !x.is_empty()).map(|x| parse_big(x).to_u32_digits().first().copied().unwrap_or(0) as usize).collect())
+}
+
+/// (library index, input slice) of every `parse` call of a multi-automaton shape, in call order.
+fn the_calls(spec: &Spec) -> Vec<(usize, std::ops::Range<usize>)> {
+    let calls = usize_list(spec, "call").expect("p.call");
+    let split = usize_list(spec, "split").unwrap_or_else(|| vec![spec.ins.len()]);
+    assert!(calls.len() == split.len() && split.iter().sum::<usize>() == spec.ins.len(), "call / split / in do not fit");
+    let mut at = 0;
+    calls
+        .into_iter()
+        .zip(split)
+        .map(|(c, n)| {
+            at += n;
+            (c, at - n..at)
+        })
+        .collect()
+}
+
 #[derive(Clone)]
 struct C19Circuit {
     spec: Spec,
@@ -141,8 +174,11 @@ impl Circuit<F> for C19Circuit {
         match spec.family.as_str() {
             "automaton" => {
                 // the REAL compilation of the regex; index 0 in the chip's library
-                let a = the_regex(&spec).to_automaton();
-                let automata = FxHashMap::from_iter([(0usize, a)]);
+                let automata = match the_library(&spec) {
+                    // several automata in ONE chip (one shared lookup table): index j = j-th regex of the library
+                    Some(lib) => FxHashMap::from_iter(lib.iter().enumerate().map(|(j, r)| (j, rx::build(r).to_automaton()))),
+                    None => FxHashMap::from_iter([(0usize, the_regex(&spec).to_automaton())]),
+                };
                 let cols: [_; NB_AUTOMATA_COLS] = advice_columns[..NB_AUTOMATA_COLS].try_into().unwrap();
                 automaton = Some(AutomatonChip::<usize, F>::configure(meta, &(cols, automata)));
             }
@@ -166,9 +202,18 @@ impl Circuit<F> for C19Circuit {
             "automaton" => {
                 let chip = AutomatonChip::<usize, F>::new(config.automaton.as_ref().unwrap(), &ng);
                 let input = s.ins.iter().map(|b| self.io.in_byte(&ng, l, *b)).collect::<Result<Vec<_>, _>>()?;
-                let markers = chip.parse(l, &0usize, &input)?;
-                for m in markers.iter() {
-                    self.io.out_native(&ng, l, m)?;
+                if the_library(s).is_some() {
+                    for (idx, range) in the_calls(s) {
+                        let markers = chip.parse(l, &idx, &input[range])?;
+                        for m in markers.iter() {
+                            self.io.out_native(&ng, l, m)?;
+                        }
+                    }
+                } else {
+                    let markers = chip.parse(l, &0usize, &input)?;
+                    for m in markers.iter() {
+                        self.io.out_native(&ng, l, m)?;
+                    }
                 }
                 chip.load(l)?;
             }
@@ -252,8 +297,17 @@ pub fn main(args: &[String]) {
     let prover = MockProver::<F>::run(k, &circuit, vec![vec![], pi]).expect("synthesis (pass 2)");
     let mut extra = json!({"family": spec.family, "op": spec.op, "params": spec.params});
     if spec.family == "automaton" {
-        let a = the_regex(&spec).to_automaton();
-        extra["automaton"] = dump_automaton!(a);
+        if let Some(lib) = the_library(&spec) {
+            // every automaton of the library compiled ALONE (no offsets): the specification side
+            let dumps: Vec<J> = lib.iter().map(|r| dump_automaton!(rx::build(r).to_automaton())).collect();
+            let calls = the_calls(&spec);
+            extra["automaton"] = dumps[calls[0].0].clone();
+            extra["automata"] = J::Array(dumps);
+            extra["calls"] = J::Array(calls.iter().map(|(c, r)| json!({"index": c, "from": r.start, "to": r.end})).collect());
+        } else {
+            let a = the_regex(&spec).to_automaton();
+            extra["automaton"] = dump_automaton!(a);
+        }
     }
     finish(prover, rec, replay, extra);
 }
